@@ -171,9 +171,13 @@ func (r *metricReader) readSeriesData(ctx *flow.DataLoadContext, seriesIdx uint1
 	decoder := ctx.Decoder
 	fieldCount := r.fields.Len()
 	if fieldCount == 1 {
-		decoder.ResetWithTimeRange(seriesEntryBlock, r.timeRange.Start, r.timeRange.End)
-		// metric has one field, just read the data
-		ctx.DownSampling(r.timeRange, seriesIdx, 0, decoder)
+		// metric has one field, read the data for the query field which it matches(maybe not the first query field)
+		for queryIdx, readIdx := range r.readFieldIndexes {
+			if readIdx == 0 {
+				decoder.ResetWithTimeRange(seriesEntryBlock, r.timeRange.Start, r.timeRange.End)
+				ctx.DownSampling(r.timeRange, seriesIdx, queryIdx, decoder)
+			}
+		}
 		return
 	}
 
